@@ -38,6 +38,16 @@ def cases(tier, seed):
     for a in ANCHORS:
         yield {"k": "seq", "s": a}
         yield {"k": "seq", "s": a, "kappa_first": True}
+    for w in gen.CODE_WORDS:
+        yield {"k": "seq", "s": w}
+    # weakly charged chains (a few charged residues, some of them within the first blob) of various lengths
+    rng0 = gen.sub_rng(0, ID, "sparse")
+    for j in range(40 if tier == "quick" else 400):
+        n = rng0.randint(26, 200)
+        body = [rng0.choice("GSQNAT") for _ in range(n)]
+        for pos in sorted(set([rng0.randrange(0, 6) for _ in range(rng0.randint(1, 3))] + [rng0.randrange(n) for _ in range(rng0.randint(0, 2))])):
+            body[pos] = rng0.choice("KRDE")
+        yield {"k": "seq", "s": "".join(body)}
     for L in range(1, LMAX[tier] + 1):
         for pat in gen.all_patterns(L):
             yield {"k": "pat", "p": M.pat_str(pat)}
